@@ -12,5 +12,5 @@ cd /verif
 VERIF_REPO="$S" VERIF_OUT_DIR="$S/out" ./check "$PROP" "$TIER" > /tmp/seedtest.$$.log 2>&1
 rc=$?
 nv=$(grep -c '^VIOLATION' /tmp/seedtest.$$.log)
-echo "$D: exit=$rc violations=$nv $(grep -m1 'sig=' /tmp/seedtest.$$.log | cut -c1-200)"
+echo "$D: exit=$rc violations=$nv $(grep -A1 '^VIOLATION' /tmp/seedtest.$$.log | grep -m1 'sig=' | cut -c1-200)"
 tail -1 /tmp/seedtest.$$.log
